@@ -1,0 +1,259 @@
+//go:build verif
+
+package main
+
+import (
+	"fmt"
+	"mltwist/internal/deps"
+	"mltwist/internal/elf"
+	"mltwist/internal/emulator"
+	"mltwist/internal/parser"
+	"mltwist/internal/riscv"
+	"mltwist/internal/state"
+	"mltwist/internal/state/memory"
+	"mltwist/pkg/expr"
+	"mltwist/pkg/model"
+	"sort"
+	"strings"
+)
+
+// Emulator histories (properties C03 and C04), one program per line.
+//
+//	emu  <seed> <entry> <ncode> (<begin> <hex>)... <ndata> (<begin> <hex>)... <nsteps> <npre> (<key> <hex>)...
+//	emuq ... (the same operation; the model driver judges the provider log only)
+//
+// The code blocks are parsed with the real riscv.NewParser(Variant64, ExtM, ExtA)
+// and parser.Parse over an elf.Memory, the result is given to deps.NewCode. The
+// program image (code blocks and data blocks) is a memory.Bytes under a fresh
+// memory.Sparse, exactly the layering of cmd/mltwist runIU. The pre-set
+// registers are stored into the register map before emulator.New.
+//
+// The state provider is a deterministic function of (seed, key, address);
+// every call is logged.
+//
+// Result: "err:<class>" if the setup fails, otherwise the answers of the steps
+// joined by " | " and the dump of the final state:
+//
+//	ok RL <n> (key C)... RS <n> (key C)... ML <n> (key addr C)... MS <n> (key addr C)...
+//	   Q <n> (r key w | m key addr w)... R <k> (key E)... W <dumpMem of the sparse layer>
+//	err                            Step returned an error (history ends)
+//	PANIC Q <n> ...                Step panicked (history ends)
+//	D <dumpState>
+
+const (
+	semuMul = 1099511628211
+	semuAdd = 0x9e3779b97f4a7c15
+)
+
+func semuMix(h, x uint64) uint64 { return (h^x)*semuMul + semuAdd }
+
+func semuHashStr(seed uint64, s string) uint64 {
+	h := semuMix(seed, 77)
+	for _, c := range s {
+		h = semuMix(h, uint64(c))
+	}
+	return h
+}
+
+// semuRegValue is the 64 bit value of register key.
+func semuRegValue(seed uint64, key string) uint64 {
+	h := semuHashStr(seed, key)
+	switch h % 8 {
+	case 0:
+		return 0
+	case 1:
+		return ^uint64(0)
+	case 2:
+		return 1 << 63
+	case 3:
+		return 1<<63 - 1
+	case 4:
+		return semuMix(h, 5) % 256
+	case 5:
+		return ^uint64(0) - semuMix(h, 5)%256
+	default:
+		return semuMix(h, 1)
+	}
+}
+
+func semuMemByte(seed uint64, key string, a uint64) byte {
+	x := semuMix(semuMix(semuHashStr(seed+1, key), a), 1)
+	x = (x ^ (x >> 29)) * 0xbf58476d1ce4e5b9
+	return byte(x >> 56)
+}
+
+type semuProvider struct {
+	seed uint64
+	log  []string
+}
+
+func (p *semuProvider) Register(key expr.Key, w expr.Width) expr.Const {
+	p.log = append(p.log, fmt.Sprintf("r %s %d", key, w))
+	v := semuRegValue(p.seed, string(key))
+	bs := make([]byte, w)
+	for i := range bs {
+		if i < 8 {
+			bs[i] = byte(v >> (8 * uint(i)))
+		}
+	}
+	return expr.NewConst(bs, w)
+}
+
+func (p *semuProvider) Memory(key expr.Key, addr model.Addr, w expr.Width) expr.Const {
+	p.log = append(p.log, fmt.Sprintf("m %s %d %d", key, uint64(addr), w))
+	bs := make([]byte, w)
+	for i := range bs {
+		bs[i] = semuMemByte(p.seed, string(key), uint64(addr)+uint64(i))
+	}
+	return expr.NewConst(bs, w)
+}
+
+func semuFmtRegSet(tag string, s emulator.RegSet) string {
+	keys := make([]string, 0, len(s))
+	for k := range s {
+		keys = append(keys, string(k))
+	}
+	sort.Strings(keys)
+	var sb strings.Builder
+	fmt.Fprintf(&sb, "%s %d", tag, len(keys))
+	for _, k := range keys {
+		fmt.Fprintf(&sb, " %s %s", k, fmtExpr(s[expr.Key(k)]))
+	}
+	return sb.String()
+}
+
+func semuFmtAccesses(tag string, as []emulator.MemAccess) string {
+	var sb strings.Builder
+	fmt.Fprintf(&sb, "%s %d", tag, len(as))
+	for _, a := range as {
+		fmt.Fprintf(&sb, " %s %d %s", a.Key, uint64(a.Addr), fmtExpr(a.Value))
+	}
+	return sb.String()
+}
+
+func semuFmtLog(log []string) string {
+	var sb strings.Builder
+	fmt.Fprintf(&sb, "Q %d", len(log))
+	for _, l := range log {
+		sb.WriteByte(' ')
+		sb.WriteString(l)
+	}
+	return sb.String()
+}
+
+type semuBlock struct {
+	begin model.Addr
+	bs    []byte
+}
+
+func semuBlocks(t *tokens) []semuBlock {
+	n := t.int()
+	bs := make([]semuBlock, 0, n)
+	for i := 0; i < n; i++ {
+		begin := model.Addr(t.uint())
+		bs = append(bs, semuBlock{begin: begin, bs: t.hex()})
+	}
+	return bs
+}
+
+func opEmu(t *tokens) string {
+	seed := t.uint()
+	entry := model.Addr(t.uint())
+	code := semuBlocks(t)
+	data := semuBlocks(t)
+	nsteps := t.int()
+	npre := t.int()
+	type preset struct {
+		key expr.Key
+		bs  []byte
+	}
+	pres := make([]preset, 0, npre)
+	for i := 0; i < npre; i++ {
+		k := t.key()
+		pres = append(pres, preset{key: k, bs: t.hex()})
+	}
+
+	// Setup: the path of cmd/mltwist run() and runIU().
+	var emul *emulator.Emulator
+	var sparse *memory.Sparse
+	prov := &semuProvider{seed: seed}
+	failure := protect(func() string {
+		codeBlocks := make([]elf.Block, 0, len(code))
+		for _, b := range code {
+			codeBlocks = append(codeBlocks, elf.VerifNewBlockSemu(b.begin, b.bs))
+		}
+		codeMem, err := elf.VerifNewMemorySemu(codeBlocks)
+		if err != nil {
+			return "err:codeoverlap"
+		}
+
+		ins, err := parser.Parse(codeMem, rvParser("64", "ma"))
+		if err != nil {
+			return "err:parse"
+		}
+		program, err := deps.NewCode(entry, ins)
+		if err != nil {
+			return "err:newcode"
+		}
+
+		memBlocks := make([]memory.ByteBlock, 0, len(code)+len(data))
+		for _, b := range code {
+			memBlocks = append(memBlocks, elf.VerifNewBlockSemu(b.begin, b.bs))
+		}
+		for _, b := range data {
+			memBlocks = append(memBlocks, elf.VerifNewBlockSemu(b.begin, b.bs))
+		}
+		byteMem, err := memory.NewBytes(memBlocks)
+		if err != nil {
+			return "err:overlap"
+		}
+
+		sparse = memory.NewSparse()
+		stat := &state.State{
+			Regs: state.NewRegMap(),
+			Mems: memory.MemMap{riscv.MemoryKey: memory.NewOverlay(byteMem, sparse)},
+		}
+		for _, p := range pres {
+			c := expr.NewConst(p.bs, expr.Width(len(p.bs)))
+			stat.Regs.Store(p.key, c, c.Width())
+		}
+		emul = emulator.New(program, entry, prov, stat)
+		return ""
+	})
+	if failure != "" {
+		return failure
+	}
+
+	answers := make([]string, 0, nsteps+1)
+	for i := 0; i < nsteps; i++ {
+		prov.log = nil
+		isErr := false
+		a := protect(func() string {
+			s, err := emul.Step()
+			if err != nil {
+				isErr = true
+				return "err"
+			}
+			return strings.Join([]string{"ok",
+				semuFmtRegSet("RL", s.RegLoads), semuFmtRegSet("RS", s.RegStores),
+				semuFmtAccesses("ML", s.MemLoads), semuFmtAccesses("MS", s.MemStores),
+				semuFmtLog(prov.log), dumpRegs(emul.State.Regs), "W " + dumpMem(sparse),
+			}, " ")
+		})
+		if a == "PANIC" {
+			answers = append(answers, "PANIC "+semuFmtLog(prov.log))
+			break
+		}
+		answers = append(answers, a)
+		if isErr {
+			break
+		}
+	}
+	answers = append(answers, protect(func() string { return "D " + dumpState(emul.State) }))
+	return strings.Join(answers, " | ")
+}
+
+func init() {
+	register("emu", opEmu)
+	register("emuq", opEmu)
+}
